@@ -262,6 +262,7 @@ Outcome run_gen(const Plan & plan, const RunCtx & ctx)
                        + " but a pristine instance " + (c.init_ok ? "initialises" : "refuses (" + c.err + ")"));
         }
       }
+      if (ok && plan.hint("off_catalogue", 0)) out.ctr["probe_off_catalogue_configuration_accepted"]++;
       if (!ok && !faulted) { out.ctr["config_rejected_by_initialize"]++; if (getenv("BXSIM_DIAG")) out.ctr["rejected: " + I.cfg.key() + " " + err.substr(0, 80)]++; }
     } else if (op.k == "reinit") {
       if (!I.gen || !I.inited) { out.ctr["ops_skipped"]++; continue; }
@@ -582,7 +583,23 @@ Plan gen_sweep(u64 seed, u64 idx, const RunCtx & ctx)
   u64 pos = idx % total;
   // permute the order by seed so different seeds start elsewhere
   pos = (pos + hmix(seed, 77) % total) % total;
-  if (pos < names.size()) { c.cat = 2; c.nuc = names[pos]; }
+  if (idx % 5 == 4) {
+    // off-catalogue: a triple of the (isotope, level 0..12, mode 1..20) grid that the pinned tree refuses. It is
+    // expected to be refused; if the tree under test accepts it, its events must be well-formed like any other
+    static std::vector<std::string> isos;
+    static std::set<std::string> known;
+    if (isos.empty()) {
+      std::set<std::string> u;
+      for (auto & e : cat) { u.insert(e.nuc); known.insert(e.nuc + ":" + std::to_string(e.level) + ":" + std::to_string(e.mode)); }
+      isos.assign(u.begin(), u.end());
+    }
+    for (int tries = 0; tries < 50 && !isos.empty(); tries++) {
+      c.cat = 1; c.nuc = r.pick(isos); c.level = (int)r.range(0, 12); c.mode = (int)r.range(1, 20);
+      if (!known.count(c.nuc + ":" + std::to_string(c.level) + ":" + std::to_string(c.mode))) break;
+    }
+    p.hdr["off_catalogue"] = "1";
+  }
+  else if (pos < names.size()) { c.cat = 2; c.nuc = names[pos]; }
   else {
     const DbdEntry & e = cat[pos - names.size()];
     c.cat = 1; c.nuc = e.nuc; c.level = e.level; c.mode = e.mode;
